@@ -52,7 +52,8 @@ structure Defects where
   /-- `daily_log.rs:170-268`: the `SELECT` of `compute` is stepped row by row while the loop body updates the
       same table, so its `WHERE` sees the loop's own updates (SQLite 3.45 `WITHOUT ROWID` scan): an unmarked
       row is returned only if the row after it in its group is marked, and a marked row that is followed
-      by a marked row is returned a second time (as an unmarked row) right after it has been recomputed -/
+      by a marked row is returned a second time (as an unmarked row) right after it has been recomputed,
+      when its entry count has grown (the cursor is re-positioned on `(room, entity, date, entry_number)`) -/
   lazyScan : Bool
 deriving Repr, DecidableEq
 
@@ -205,7 +206,7 @@ def walkLazy (d : Defects) (sigs : Content) (room ent : Nat) : Cursor → List D
       if r.dirty then
         let (c1, o) := stepRow d sigs room ent c r
         match o with
-        | some r1 => if nextDirty then stepRow d sigs room ent c1 r1 else (c1, o)
+        | some r1 => if nextDirty && r1.count > r.count then stepRow d sigs room ent c1 r1 else (c1, o)
         | none => (c1, o)
       else if nextDirty then stepRow d sigs room ent c r
       else (c, some r)
